@@ -680,7 +680,15 @@ def apply_trailing_trivia(rebuilt: str, after: list[Any], *, indent: int) -> str
         return rebuilt
     if isinstance(after[0], Comment) and after[0].inline:
         inline_comment = after[0].rebuild(indent=0)
-        trailing = format_trivia(after[1:], indent=indent)
+        # Only the first comment shares the line: the others get lines of their
+        # own and are indented like any own-line comment.
+        rest = [
+            item.model_copy(update={"inline": False})
+            if isinstance(item, Comment) and item.inline
+            else item
+            for item in after[1:]
+        ]
+        trailing = format_trivia(rest, indent=indent)
         trailing = trim_trailing_layout_newline(after, trailing)
         return f"{rebuilt} {inline_comment}" + (f"\n{trailing}" if trailing else "")
 
